@@ -202,6 +202,7 @@ class Layout(object):
         self.adjacent_len = None
         self.nulls = 0
         self.prop_tlv = False
+        self.hdr_declared_on_header = False
         self.hdr_straddle = 0     # NDEF TLV T byte this many usable bytes in front of blocks Dh..Fh (0: header contiguous)
 
     def value_addrs(self, n):
@@ -468,6 +469,10 @@ def gen_dynamic(rng, phys=None, data_size=None, nulls=None, n_lock=None, n_mem=N
     L.reserved = reserved
     L.free = [x for x in range(L.offset, data_size) if x not in reserved]
     L.capacity = capacity_of(len(L.free))
+    # C01/C03 quantify over layouts whose *declared* ranges do not fall on the NDEF TLV's tag and length-field bytes:
+    # only the fixed blocks Dh..Fh may lie inside the header span
+    fixed = static_reserved(True)
+    L.hdr_declared_on_header = any(a in reserved and a not in fixed for a in range(L.free[0], L.free[min(3, len(L.free) - 1)] + 1))
     return _finish(L, rng, image, old_len, rng.random() < 0.7 if terminator is None else terminator)
 
 
